@@ -339,6 +339,45 @@ example : resolve Kind.property.cls .m_unit =
       some ⟨.Feature, .m_data, .setter, [⟨.returns, .self⟩, ⟨.raises, .none⟩]⟩ := by
   decide +kernel
 
+/-- when the model predicts the outcome of an accepted call (`Member.acceptedOutcome`, used by the
+driver for harness histories, which say "accepted" without naming a path), that outcome is one the
+source has, it returns, and every other returning path of the member ends in the same touch state:
+the prediction does not depend on the path the implementation takes -/
+theorem C19_accepted_outcome_determined (mb : Member) (o : Outcome)
+    (h : mb.acceptedOutcome = some o) :
+    o.exit = .returns ∧ o ∈ mb.outcomes ∧
+    ∀ o' ∈ mb.outcomes, o'.exit = .returns → o'.touch = o.touch := by
+  unfold Member.acceptedOutcome at h
+  split at h
+  · rename_i t ht
+    cases h
+    have hall : ∀ x ∈ mb.returnTouches, x = t := by
+      intro x hx
+      have : x ∈ mb.returnTouches.eraseDups := List.mem_eraseDups.mpr hx
+      rw [ht] at this
+      simpa using this
+    have ht_mem : t ∈ mb.returnTouches := by
+      have : t ∈ mb.returnTouches.eraseDups := by rw [ht]; simp
+      exact List.mem_eraseDups.mp this
+    refine ⟨rfl, ?_, ?_⟩
+    · simp only [Member.returnTouches, List.mem_map, List.mem_filter] at ht_mem
+      obtain ⟨o', ⟨ho', hr⟩, htt⟩ := ht_mem
+      have : o' = ⟨.returns, t⟩ := by
+        cases o' with
+        | mk e tt => simp at hr htt; subst hr; subst htt; rfl
+      rw [← this]; exact ho'
+    · intro o' ho' hr
+      apply hall
+      simp only [Member.returnTouches, List.mem_map, List.mem_filter]
+      exact ⟨o', ⟨ho', by simp [hr]⟩, rfl⟩
+  · cases h
+
+/-- a member whose returning paths disagree has no predicted outcome (`DataFrame.append_column`
+stamps only when the frame has units), a listed setter always has: the touching one -/
+example : (resolve .DataFrame .m_append_column).map (·.acceptedOutcome) = some none ∧
+    (resolve .MultiTag .m_extents).map (·.acceptedOutcome) = some (some ⟨.returns, .self⟩) := by
+  decide +kernel
+
 /-- no operation of any kind (listed or not, accepted or refused, switch on or off) changes a
 stored time stamp of an entity other than the one it is directed at -/
 theorem C19_only_target (s : State) (op : Op) (j : Nat) (e : Ent) (h : s.ents[j]? = some e)
@@ -352,6 +391,30 @@ theorem C19_only_target (s : State) (op : Op) (j : Nat) (e : Ent) (h : s.ents[j]
   | touched w _ _ ht _ => exact absurd ht hne
   | forcedU t w hop _ => subst hop; simp [Op.target] at hne
   | forcedC t w hop _ => subst hop; simp [Op.target] at hne
+
+/-- histories in which no operation is directed at entity `j` -/
+def NotTargeted (j : Nat) : State → List Op → Prop
+  | _, [] => True
+  | s, op :: ops => Op.target s op ≠ some j ∧ NotTargeted j (step s op).1 ops
+
+/-- over any history, whatever happens to other entities (attribute changes with the switch on,
+force calls, creations, deletions, re-opening): an entity at which no operation is directed keeps
+both stored time stamps -/
+theorem C19_untargeted_history (ops : List Op) : ∀ (s : State) (j : Nat) (e : Ent),
+    s.ents[j]? = some e → NotTargeted j s ops →
+    ∃ e', (run s ops).ents[j]? = some e' ∧ e'.created = e.created ∧ e'.updated = e.updated := by
+  induction ops with
+  | nil => intro s j e h _; exact ⟨e, h, rfl, rfl⟩
+  | cons op ops ih =>
+    intro s j e h hnt
+    obtain ⟨e1, h1, hc1, hu1⟩ := C19_only_target s op j e h hnt.1
+    obtain ⟨e', h', hc, hu⟩ := ih (step s op).1 j e1 h1 hnt.2
+    exact ⟨e', h', hc.trans hc1, hu.trans hu1⟩
+
+example : ∃ s, State.open 1000 true = .ok s ∧
+    NotTargeted 1 (run s [.create .block 0 .good, .create .block 0 .good])
+      [.setClock 2000, .call 2 none .m_type ⟨.returns, .self⟩, .forceCreated 2 (.at 5), .delete 2] :=
+  ⟨_, rfl, by decide +kernel, by decide +kernel, by decide +kernel, by decide +kernel, trivial⟩
 
 /-- a call that ends — by an exception or a `return` — on a path on which the idiom has not run,
 and a refused creation, leave the whole state as it was (whatever the switch says) -/
@@ -403,6 +466,34 @@ theorem C19_observe_is_stored (s : State) (i : Nat) :
     obtain ⟨hc, hu⟩ := C19_getters_read_store e.kind
     simp [hc, hu, Ent.stored]
 
+/-- a created entity starts with both time stamps equal to the current time (clock within
+1970…2100), and creating it leaves every existing entity as it was -/
+theorem C19_create_stamps_now (s : State) (k : Kind) (p : Nat) (pe : Ent)
+    (hp : s.ents[p]? = some pe) (halive : pe.alive = true) (hv : validParent k pe.kind = true)
+    (hclock : InRange s.clock) :
+    (step s (.create k p .good)).2 = .done ∧
+    observe (step s (.create k p .good)).1 s.ents.length .created = some (.ok (some s.clock)) ∧
+    observe (step s (.create k p .good)).1 s.ents.length .updated = some (.ok (some s.clock)) ∧
+    (∀ j, j < s.ents.length → (step s (.create k p .good)).1.ents[j]? = s.ents[j]?) := by
+  obtain ⟨v, hts, _⟩ := timeToStr_ok_of_inRange s.clock hclock
+  have hal : aliveAt s p = some pe := by simp [aliveAt, hp, halive]
+  have hstep : step s (.create k p .good) =
+      ({ s with ents := s.ents ++ [{ kind := k, parent := p, alive := true, created := some v,
+                                     updated := some v }] }, .done) := by
+    simp [step, hal, hv, hts]
+  rw [hstep]
+  have hr := readStamp_written s.clock hclock v hts
+  obtain ⟨hgc, hgu⟩ := C19_getters_read_store k
+  refine ⟨rfl, ?_, ?_, ?_⟩
+  · simp [observe, hgc, Ent.stored, hr]
+  · simp [observe, hgu, Ent.stored, hr]
+  · intro j hj
+    simp [List.getElem?_append_left hj]
+
+example : ∃ s, State.open 1000 true = .ok s ∧
+    observe (step s (.create .block 0 .good)).1 1 .created = some (.ok (some 1000)) :=
+  ⟨_, rfl, by decide +kernel⟩
+
 /-! ## forcing a time stamp and reading it back, also after re-opening -/
 
 /-- operations that only concern the session: re-opening, the switch, the clock -/
@@ -417,7 +508,8 @@ def forceOk : Bool :=
     ((match resolve k.cls .m_force_created_at with
       | some mb => mb.kind == .forceCreated | none => false) &&
      (match resolve k.cls .m_force_updated_at with
-      | some mb => mb.kind == .forceUpdated | none => false))
+      | some mb => mb.kind == .forceUpdated | none => false) &&
+     forceCanonical k.cls .created && forceCanonical k.cls .updated)
 
 theorem run_session (ops : List Op) : ∀ (s : State), (∀ op ∈ ops, Op.isSession op = true) →
     (run s ops).ents = s.ents := by
@@ -446,7 +538,7 @@ theorem force_roundtrip_stored (s : State) (e : Nat) (ent : Ent) (t : Int) (sess
   have hkk := hall ent.kind (Kind.mem_all _)
   have hkf : (ent.kind == Kind.feature) = false := by simpa using hk
   simp only [hkf, Bool.false_or, Bool.and_eq_true] at hkk
-  obtain ⟨hc, hu⟩ := hkk
+  obtain ⟨⟨⟨hc, hu⟩, hcc⟩, hcu⟩ := hkk
   obtain ⟨v, hv, hr⟩ := timeToStr_ok_of_inRange t ht
   have hal : aliveAt s e = some ent := by simp [aliveAt, he, halive]
   constructor
@@ -457,7 +549,7 @@ theorem force_roundtrip_stored (s : State) (e : Nat) (ent : Ent) (t : Int) (sess
       have hmk : (mb.kind != .forceUpdated) = false := by simpa using hu
       have hstep : step s (.forceUpdated e (.at t)) =
           ({ s with ents := setUpdated s.ents e v }, .done) := by
-        simp [step, hal, hres, hmk, timeArgStr, hv]
+        simp [step, hal, hres, hmk, hcu, timeArgStr, hv]
       rw [hstep]
       refine ⟨rfl, ?_⟩
       simp only [readUpdated, run_session sess _ hsess, getElem?_setUpdated, he, Option.map_some,
@@ -470,7 +562,7 @@ theorem force_roundtrip_stored (s : State) (e : Nat) (ent : Ent) (t : Int) (sess
       have hmk : (mb.kind != .forceCreated) = false := by simpa using hc
       have hstep : step s (.forceCreated e (.at t)) =
           ({ s with ents := setCreated s.ents e v }, .done) := by
-        simp [step, hal, hres, hmk, timeArgStr, hv]
+        simp [step, hal, hres, hmk, hcc, timeArgStr, hv]
       rw [hstep]
       refine ⟨rfl, ?_⟩
       simp only [readCreated, run_session sess _ hsess, getElem?_setCreated, he, Option.map_some,
